@@ -35,6 +35,9 @@ def anon_form(form, H, idx=""):
         return "A2()(y <== in2, x <== in)", ["%s = A2();" % h, "%s.y <== in2;" % h, "%s.x <== in;" % h], "%s.out" % h
     if form == "anon_mixed_ops":
         return "A2()(x <-- in, y <== in2)", ["%s = A2();" % h, "%s.x <-- in;" % h, "%s.y <== in2;" % h], "%s.out" % h
+    if form == "anon_mixed_ops_rev":
+        # named inputs written in the reverse of the declaration order, each with its own operator
+        return "A2()(y <== in2, x <-- in)", ["%s = A2();" % h, "%s.x <-- in;" % h, "%s.y <== in2;" % h], "%s.out" % h
     if form == "anon_param":
         return "B(2)(in)", ["%s = B(2);" % h, "%s.in <== in;" % h], "%s.out" % h
     if form == "anon0":
